@@ -361,20 +361,28 @@ def tjTokens : List (Atom × Bytes) → Option (List Tok)
     | some v => (tjTokens t).map (Tok.raw v :: ·)
     | none => if a.isNum then tjTokens t else none
 
+def Operand.strVal : Operand → Option Bytes
+  | .atom a => a.strVal
+  | _ => none
+
+def Operand.isNum : Operand → Bool
+  | .atom a => a.isNum
+  | _ => false
+
 /-- operands of the four text-showing operators (Table 109) and the tokens they yield;
     `none` = wrong number or kind of operands. -/
 def showTokens (op : Bytes) (args : List Operand) : Option (List Tok) :=
   if op = Tj then
     match args with
-    | [.atom a] => a.strVal.map (fun v => [Tok.raw v])
+    | [a] => a.strVal.map (fun v => [Tok.raw v])
     | _ => none
   else if op = quote then
     match args with
-    | [.atom a] => a.strVal.map (fun v => [Tok.space, Tok.raw v])
+    | [a] => a.strVal.map (fun v => [Tok.space, Tok.raw v])
     | _ => none
   else if op = dquote then
     match args with
-    | [.atom aw, .atom ac, .atom a] =>
+    | [aw, ac, a] =>
       if aw.isNum && ac.isNum then a.strVal.map (fun v => [Tok.space, Tok.raw v]) else none
     | _ => none
   else
